@@ -215,6 +215,18 @@ impl Sched {
         st.trace.push(Event { tid: me, kind: K_JOINED, addr: 0, ord: 9, ord2: 9, a: 0, b: 0, observed: 0, ok: true });
     }
 
+    /// a scheduling point that is not a synchronisation operation: user code (an event handler) takes time, other
+    /// threads may run before it starts and while it runs
+    pub fn yield_point(&self, kind: u8) {
+        let me = match Self::my_tid() { Some(t) => t, None => return };
+        let mut st = self.st.lock().unwrap();
+        if st.outcome != 0 { drop(st); loop { std::thread::park(); } }
+        st.status[me] = Status::Ready(kind);
+        self.pick_next(&mut st);
+        st = self.wait_turn(st, me);
+        st.status[me] = Status::Running;
+    }
+
     pub fn mark(&self, kind: u8, addr: usize, a: u64, b: u64, observed: u64) {
         if let Some(me) = Self::my_tid() {
             let mut st = self.st.lock().unwrap();
